@@ -933,6 +933,50 @@ func init() {
 		externals[k] = v
 	}
 	installAtomics()
+	// timers never fire by themselves: deadlines are modelled explicitly by harness contexts
+	externals["time.AfterFunc"] = func(fr *frame, a []value) value {
+		used("time.AfterFunc / context deadlines (model: timers never fire; timeouts are injected by harness contexts)")
+		var cell value = zero(namedType(fr, "time", "Timer"))
+		return &cell
+	}
+	externals["time.NewTimer"] = func(fr *frame, a []value) value {
+		st := zero(namedType(fr, "time", "Timer")).(structure)
+		st[0] = newChan(1)
+		var cell value = st
+		return &cell
+	}
+	externals["(*time.Timer).Stop"] = func(fr *frame, a []value) value { return true }
+	externals["(*time.Timer).Reset"] = func(fr *frame, a []value) value { return true }
+	externals["(*sync/atomic.Value).Load"] = func(fr *frame, a []value) value {
+		c := structField(a[0], 0)
+		acquire(c)
+		if *c == nil {
+			return iface{}
+		}
+		return *c
+	}
+	externals["(*sync/atomic.Value).Store"] = func(fr *frame, a []value) value {
+		c := structField(a[0], 0)
+		release(c)
+		logCell(c)
+		*c = a[1]
+		return nil
+	}
+	externals["(*sync/atomic.Value).CompareAndSwap"] = func(fr *frame, a []value) value {
+		c := structField(a[0], 0)
+		acquire(c)
+		cur := *c
+		if cur == nil {
+			cur = iface{}
+		}
+		if eng.truth(equalsV(types.NewInterfaceType(nil, nil), cur, a[1])) {
+			release(c)
+			logCell(c)
+			*c = a[2]
+			return true
+		}
+		return false
+	}
 	externals["runtime.Callers"] = func(fr *frame, a []value) value { return 0 }
 	externals["runtime.Caller"] = func(fr *frame, a []value) value { return tuple{uintptr(0), "", 0, false} }
 	externals["runtime/debug.Stack"] = func(fr *frame, a []value) value { return []value(nil) }
